@@ -243,6 +243,102 @@ def quick_conditioned(spec):
     return False
 
 
+def cli_compare(spec, methods, index2, envv, viols, obs):
+    """bin/sum_product.py under -OO on the spec written as JSON (independent writer): value and -G gradients vs the reference"""
+    import torch
+    tmpdir = os.path.join(env.VERIF, 'out', 'tmp')
+    os.makedirs(tmpdir, exist_ok=True)
+    ref = c03.reference(spec, cot_seed=None)      # all-ones cotangent, as the CLI uses
+    if ref is None:
+        return False
+    zref, gref = ref['out']['real']
+    path = os.path.join(tmpdir, f'c11_{os.getpid()}_{index2}.json')
+    with open(path, 'w') as f:
+        json.dump(spec_to_json(spec), f)
+    for method in methods:
+        cmd = [sys.executable, '-B', '-OO', os.path.join(env.REPO, 'bin', 'sum_product.py'), path, '-d', '-m', method, '-l', '1e-12', '-k', '10000', '-G']
+        p = subprocess.run(cmd, env=dict(envv, PYTHONPATH=env.REPO), capture_output=True, text=True, timeout=300)
+        obs['cli_runs'] += 1
+        ctx = dict(cmd=' '.join(cmd[2:]), spec_index=index2)
+        if p.returncode != 0:
+            viols.append(C.viol('cli:crash', f'bin/sum_product.py exited {p.returncode}: {p.stderr[-500:]}', context=ctx, spec=spec))
+            continue
+        lines = [l for l in p.stdout.splitlines() if l.strip()]
+        try:
+            z = torch.tensor(json.loads(lines[0]), dtype=torch.float64)
+        except Exception as e:
+            viols.append(C.viol('cli:unparsable', f'first output line {lines[:1]}: {e}', context=ctx))
+            continue
+        obs['cli_values_compared'] += 1
+        # -d selects float64: the printed value must have float64 accuracy (a float32 computation is ~1e-8 off)
+        msg = C.close_tensor(z.reshape(zref.shape), zref, 'float64', rtol=2e-10, atol=1e-11)
+        if msg:
+            viols.append(C.viol('cli:value', msg, context=ctx, spec=spec))
+            continue
+        # -G prints 'grad[<factor>]: <json>' for every factor
+        seen = 0
+        for l in lines[1:]:
+            if not l.startswith('grad['):
+                continue
+            name = l[5:l.index(']')]
+            try:
+                g = torch.tensor(json.loads(l[l.index(':') + 1:]), dtype=torch.float64)
+            except Exception as e:
+                viols.append(C.viol('cli:unparsable', f'gradient line {l[:80]}: {e}', context=ctx))
+                continue
+            if name in gref:
+                seen += 1
+                ge = gref[name]
+                obs['cli_gradients_compared'] = obs.get('cli_gradients_compared', 0) + 1
+                gg = torch.nan_to_num(g.reshape(ge.shape), nan=0.0) if ge.numel() else g
+                scale = float(ge.abs().max()) if ge.numel() else 0.0
+                if not torch.allclose(gg, ge, rtol=1e-6, atol=1e-9 * max(1.0, scale)):
+                    viols.append(C.viol('cli:gradient', f'grad[{name}] = {C.short(g.tolist(), 200)}, reference {C.short(ge.tolist(), 200)}', context=ctx, spec=spec))
+        if seen == 0 and spec['terminals']:
+            viols.append(C.viol('cli:no-gradients', '-G printed no gradient', context=ctx))
+    try:
+        os.remove(path)
+    except OSError:
+        pass
+    return True
+
+
+def cli_corner_specs(rng):
+    """hand-shaped grammars on which the command-line tool has to cope with factors that take part in no derivation,
+    a sum-product that depends on no factor at all, a zero-valued start symbol, nullary factors, start arity 2"""
+    w1 = lambda n: [round(rng.uniform(0.1, 0.9), 3) for _ in range(n)]
+    out = []
+    out.append(('unused-factor', dict(domains={'L0': 2}, terminals={'f0': ['L0'], 'f1': ['L0']}, nonterminals={'S': []}, start='S',
+                                      rules=[dict(lhs='S', nodes=['L0'], ext=[], edges=[['f0', [0]]])], weights={'f0': w1(2), 'f1': w1(2)}, wdomain='real')))
+    out.append(('no-factor-participates', dict(domains={'L0': 3}, terminals={'f0': ['L0']}, nonterminals={'S': ['L0']}, start='S',
+                                               rules=[dict(lhs='S', nodes=['L0'], ext=[0], edges=[])], weights={'f0': w1(3)}, wdomain='real')))
+    out.append(('zero-start', dict(domains={'L0': 2}, terminals={'f0': ['L0']}, nonterminals={'S': [], 'X': ['L0']}, start='S',
+                                   rules=[dict(lhs='S', nodes=['L0'], ext=[], edges=[['X', [0]], ['f0', [0]]])], weights={'f0': w1(2)}, wdomain='real')))
+    p = round(rng.uniform(0.05, 0.2), 3)
+    out.append(('unit-base-catalan', dict(domains={'L0': 2}, terminals={'f0': []}, nonterminals={'S': []}, start='S',
+                                          rules=[dict(lhs='S', nodes=[], ext=[], edges=[]), dict(lhs='S', nodes=[], ext=[], edges=[['f0', []], ['S', []], ['S', []]])],
+                                          weights={'f0': p}, wdomain='real')))
+    out.append(('start-arity-2-edgeless-ext', dict(domains={'L0': 2, 'L1': 3}, terminals={'f0': ['L0']}, nonterminals={'S': ['L0', 'L1']}, start='S',
+                                                   rules=[dict(lhs='S', nodes=['L0', 'L1', 'L1'], ext=[0, 1], edges=[['f0', [0]]])], weights={'f0': w1(2)}, wdomain='real')))
+    return out
+
+
+def cli_corner_case(tier, seed, index):
+    fggs = env.setup()
+    viols = []
+    obs = dict(cli_runs=0, cli_values_compared=0, cli_corner_specs=0)
+    rng = G.rng_for(seed, 'C11cli', tier, index)
+    envv = dict(os.environ, RV_VERIF=env.VERIF, RV_REPO=env.REPO, PYTHONPATH=env.VERIF, PYTHONDONTWRITEBYTECODE='1', OMP_NUM_THREADS='1', FGGS_VERIF='1')
+    feats = []
+    for j, (name, spec) in enumerate(cli_corner_specs(rng)):
+        methods = [['newton'], ['fixed-point']][(index + j) % 2] if tier == 'quick' else ['newton', 'fixed-point']
+        if cli_compare(spec, methods, 5000 + 10 * index + j, envv, viols, obs):
+            obs['cli_corner_specs'] += 1
+            feats.append('cli-' + name)
+    return dict(cls='cli-corner-cases', features=feats, verdict='violated' if viols else 'held', violations=viols, obs=obs, nontrivial=True,
+                key=f'cli{index}.{seed}', evals=max(1, obs['cli_values_compared']), sample=dict(block='bin/sum_product.py corner cases', specs=feats))
+
+
 def sub_case(tier, seed, index, k):
     """k-th interpreter-level case: a batch of specs under python / -O / -OO, and the CLI under -OO"""
     import torch
@@ -312,65 +408,13 @@ def sub_case(tier, seed, index, k):
             if r.get('dtype') != 'torch.float64' or len(xa) != len(xb) or any(not ((x == y) or abs(x - y) <= 1e-10 * max(1e-3, abs(y))) for x, y in zip(xa, xb)):
                 viols.append(C.viol(f'defaulted-semiring:{level}:differs', f'{key}: default dtype float64 + default semiring gives {xa[:3]} ({r.get("dtype")}), explicit float64 semiring gives {xb[:3]}'))
     # command-line tool under -OO
-    tmpdir = os.path.join(env.VERIF, 'out', 'tmp')
-    os.makedirs(tmpdir, exist_ok=True)
     for index2 in range(lo, lo + 2):
         spec, meta = gen(tier, seed, index2)
         if not quick_conditioned(spec):
             continue
-        ref = c03.reference(spec, cot_seed=None)      # all-ones cotangent, as the CLI uses
-        if ref is None:
-            continue
-        zref, gref = ref['out']['real']
-        path = os.path.join(tmpdir, f'c11_{os.getpid()}_{index2}.json')
-        with open(path, 'w') as f:
-            json.dump(spec_to_json(spec), f)
         lin = G.is_linear(spec)
-        for method in (['newton', 'linear'] if lin and index2 % 2 else ['newton', 'fixed-point'])[:2 if tier == 'thorough' else 1 + (index2 % 2)]:
-            cmd = [sys.executable, '-B', '-OO', os.path.join(env.REPO, 'bin', 'sum_product.py'), path, '-d', '-m', method, '-l', '1e-12', '-k', '10000', '-G']
-            p = subprocess.run(cmd, env=dict(envv, PYTHONPATH=env.REPO), capture_output=True, text=True, timeout=300)
-            obs['cli_runs'] += 1
-            ctx = dict(cmd=' '.join(cmd[2:]), spec_index=index2)
-            if p.returncode != 0:
-                viols.append(C.viol('cli:crash', f'bin/sum_product.py exited {p.returncode}: {p.stderr[-500:]}', context=ctx, spec=spec))
-                continue
-            lines = [l for l in p.stdout.splitlines() if l.strip()]
-            try:
-                z = torch.tensor(json.loads(lines[0]), dtype=torch.float64)
-            except Exception as e:
-                viols.append(C.viol('cli:unparsable', f'first output line {lines[:1]}: {e}', context=ctx))
-                continue
-            obs['cli_values_compared'] += 1
-            # -d selects float64: the printed value must have float64 accuracy (a float32 computation is ~1e-8 off)
-            msg = C.close_tensor(z.reshape(zref.shape), zref, 'float64', rtol=2e-10, atol=1e-11)
-            if msg:
-                viols.append(C.viol('cli:value', msg, context=ctx, spec=spec))
-                continue
-            # -G prints 'grad[<factor>]: <json>' for every factor
-            seen = 0
-            for l in lines[1:]:
-                if not l.startswith('grad['):
-                    continue
-                name = l[5:l.index(']')]
-                try:
-                    g = torch.tensor(json.loads(l[l.index(':') + 1:]), dtype=torch.float64)
-                except Exception as e:
-                    viols.append(C.viol('cli:unparsable', f'gradient line {l[:80]}: {e}', context=ctx))
-                    continue
-                if name in gref:
-                    seen += 1
-                    ge = gref[name]
-                    obs['cli_gradients_compared'] = obs.get('cli_gradients_compared', 0) + 1
-                    gg = torch.nan_to_num(g.reshape(ge.shape), nan=0.0) if ge.numel() else g
-                    scale = float(ge.abs().max()) if ge.numel() else 0.0
-                    if not torch.allclose(gg, ge, rtol=1e-6, atol=1e-9 * max(1.0, scale)):
-                        viols.append(C.viol('cli:gradient', f'grad[{name}] = {C.short(g.tolist(), 200)}, reference {C.short(ge.tolist(), 200)}', context=ctx, spec=spec))
-            if seen == 0 and spec['terminals']:
-                viols.append(C.viol('cli:no-gradients', '-G printed no gradient', context=ctx))
-        try:
-            os.remove(path)
-        except OSError:
-            pass
+        methods = (['newton', 'linear'] if lin and index2 % 2 else ['newton', 'fixed-point'])[:2 if tier == 'thorough' else 1 + (index2 % 2)]
+        cli_compare(spec, methods, index2, envv, viols, obs)
     return dict(cls='interpreter-levels', features=['python', '-O', '-OO', 'bin/sum_product.py'], verdict='violated' if viols else 'held', violations=viols, obs=obs,
                 nontrivial=True, key=f'sub{k}.{seed}', evals=max(1, obs['interpreter_results_compared'] + obs['cli_values_compared']),
                 sample=dict(block='interpreter levels', specs=[lo, hi], levels=list(outs)))
@@ -380,6 +424,8 @@ def run_case(tier, seed, index, spec=None, meta=None):
     nsub = N_SUB * (1 if tier == 'quick' else 10)
     if spec is None and index < nsub:          # interpreter-level cases first: they are the long poles
         return sub_case(tier, seed, index, index)
+    if spec is None and index == nsub:
+        return cli_corner_case(tier, seed, index)
     if spec is None:
         spec, meta = gen(tier, seed, index)
     res = check_spec(spec, meta, index)
@@ -402,7 +448,7 @@ def finalize(tot, tier, seed):
     for k in ('J', 'J_precompute_products'):
         if tot['hooks'].get(k, 0) == 0:
             inc.append(f'hook {k} never reached')
-    for k in ('configurations', 'gradient_comparisons', 'cross_semiring_checks', 'jpre_true_runs', 'interpreter_runs', 'interpreter_results_compared', 'cli_runs', 'cli_values_compared', 'cli_gradients_compared'):
+    for k in ('configurations', 'gradient_comparisons', 'cross_semiring_checks', 'jpre_true_runs', 'interpreter_runs', 'interpreter_results_compared', 'cli_runs', 'cli_values_compared', 'cli_gradients_compared', 'cli_corner_specs'):
         if tot['obs'].get(k, 0) == 0:
             inc.append(f'{k} never observed')
     if tot['features'].get('levels-not-effective', 0) or tot['features'].get('subprocess-timeout', 0):
